@@ -38,5 +38,5 @@ import OH.Props.C02B
 #print axioms OH.Props.C02B.C16_state_unchanged_partial
 #print axioms OH.Props.C02B.C16_next_change_partial
 #print axioms OH.Props.C02B.C16_negative_bound_partial
-#print axioms OH.Props.C02B.envOK_fails_shifted
-#print axioms OH.Props.C02B.layerB_unscoped_fails
+#print axioms OH.Props.C02B.envOK_shifted
+#print axioms OH.Props.C02B.shifted_witness_values
